@@ -1,4 +1,4 @@
-import Slock.Proofs.Engine2SimUpdOps
+import Slock.Proofs.Engine2SimInvUse
 import Slock.Properties.C01
 /-!
 # EngineSim — the record-level model (M-ENGINE stage 2) against the stage-1 model, through `abs`
@@ -128,6 +128,20 @@ structure SimInv (k : Engine2.Key) : Prop where
   /-- a hold's expiry-wheel entry caches the hold's back-off counter -/
   ck : CkSync k
 
+/-- **The record-level part of `SimInv` is an invariant of reachable states** (`Sim.KI`, proved through every branch of LOCK / UNLOCK
+and the two sweeps: `Sim.run_dbk`): connection = command's connection, wheel entries cache the back-off counter, holds carry distinct
+identities below the sequence counter, what sits in the holder queue is not a live waiter, both queues hold distinct records. -/
+theorem reachable_ki {s : Engine2.DB} (h : Reachable2 s) (n : Nat) : KI s.seq (s.getKey n) := by
+  obtain ⟨now, a, ops, e⟩ := h
+  rw [e]
+  exact (run_dbk _ ops (Engine2.DBQ.init now a) (DBK.init now a)).getKey n
+
+/-- what is left to assume for the branch simulations: the two STAGE-1 invariants of the key's view (they arrive through the induction
+of the final theorem) -/
+theorem SimInv.of_reachable {s : Engine2.DB} (h : Reachable2 s) (n : Nat) (ki : Engine.KeyInv (Engine2.Key.abs (s.getKey n)))
+    (fl : (Engine2.Key.abs (s.getKey n)).waited = true → (Engine2.Key.abs (s.getKey n)).waiters ≠ []) : SimInv (s.getKey n) :=
+  ⟨(reachable_ki h n).wq, ki, fl, (reachable_ki h n).hidNodup, (reachable_ki h n).ckSync⟩
+
 /-- **The wake pass.** `wakeUpWaitLocks` on a linked key record — pop tombstoned heads, test the live head with `doLock`, grant it (hold
 or no hold), repeat; clear `waited` and reclaim the key record when the queue runs empty — is stage 1's `wake` on the stage-1 view:
 same counters / sequence number, same replies in the same order, same key afterwards (an EMPTY key if the record was reclaimed). -/
@@ -199,5 +213,24 @@ theorem sim_lock_hold {s : Engine2.DB} (h : Reachable2 s) (c : Engine.Cmd)
   · rw [hb] at hcl ⊢
     rw [hcl]
     exact Sim.sim_lock_relock s hq c none x hb hi.wq hi.ki hi.hd hi.ck
+
+/-- **UNLOCK with the cancel flag hitting a queued request** (tombstone where it sits, `settleWait`, reclaim check, two replies, then
+the wake pass) is stage 1's `removeWaiter` step — given that the live queued requests of the key carry pairwise distinct
+(RequestId, connection) pairs, which is what stage 1's `removeWaiter` identifies a request by (an input assumption: a client does not
+reuse the id of a pending request). -/
+theorem sim_unlock_cancel {s : Engine2.DB} (h : Reachable2 s) (c : Engine.Cmd) (data : Option Engine2.Bytes)
+    (ki : Engine.KeyInv (Engine2.Key.abs (s.getKey c.key)))
+    (wu : ((Engine2.Key.abs (s.getKey c.key)).waiters.map rcOf).Nodup)
+    (hb : ∃ x, Engine2.classifyUnlock s c = .cancel x) :
+    Equiv (Engine2.abs (Engine2.opUnlock s c data).1) (Engine.opUnlock (Engine2.abs s) { c with mgr := s.hasKey c.key }).1 ∧
+    (Engine2.opUnlock s c data).2.map (·.r) = (Engine.opUnlock (Engine2.abs s) { c with mgr := s.hasKey c.key }).2 := by
+  have hq := reachable_dbq h
+  have hcl := unlock_branch_refines h c
+  unfold Engine.opUnlock Engine2.opUnlock
+  simp only []
+  obtain ⟨x, hb⟩ := hb
+  rw [hb] at hcl ⊢
+  rw [hcl]
+  exact Sim.sim_unlock_cancel s hq c data x hb (reachable_ki h c.key).wq ki wu _
 
 end Slock.SimP
